@@ -47,6 +47,7 @@ type task struct {
 	waitObj  uint64
 	waitN    int64
 	waitDesc string // OpPoll: the channel operation the task is parked in
+	wgWoken  uint64 // WaitGroup whose counter reached zero and woke this task; checked when the task resumes
 	tr       transportTask
 }
 
@@ -312,6 +313,7 @@ func (k *Kernel) handle(t *task, r *Req) {
 		if w.n == 0 {
 			for _, id := range w.waiters {
 				k.wake(id, Rep{})
+				k.task(id).wgWoken = r.Obj
 			}
 			w.waiters = nil
 		}
@@ -579,6 +581,15 @@ func (k *Kernel) schedule() *task {
 			if t.state != tRunnable {
 				continue
 			}
+		}
+		if t.wgWoken != 0 {
+			// like sync.WaitGroup.Wait: a waiter that resumes and finds the group in use again
+			// (an Add from zero, or a new waiter, since it was woken) panics
+			if w := k.wg(t.wgWoken); w.n != 0 || len(w.waiters) > 0 {
+				t.pending.Status = StPanicWGReuse
+				k.probe("wg_reused_before_wait_returned")
+			}
+			t.wgWoken = 0
 		}
 		k.cur = t
 		return t
